@@ -183,7 +183,11 @@ func CoerceToList(arg Object) (result Object) {
 		}
 		result = list
 	case VectorLike:
-		result = ta.AsList()
+		// a copy: the list must not share its elements with the vector
+		list := ta.AsList()
+		dup := make(List, len(list))
+		copy(dup, list)
+		result = dup
 	default:
 		coerceNotPossible(ta, "list")
 	}
@@ -210,7 +214,10 @@ func CoerceToVector(arg Object, mods ...Object) (result Object) {
 		}
 		result = NewVector(len(elements), CharacterSymbol, nil, elements, false)
 	case List:
-		result = NewVector(len(ta), TrueSymbol, nil, ta, true)
+		// a copy: the vector must not share its elements with the list
+		elements := make(List, len(ta))
+		copy(elements, ta)
+		result = NewVector(len(elements), TrueSymbol, nil, elements, true)
 	default:
 		coerceNotPossible(ta, "vector")
 	}
